@@ -1,4 +1,22 @@
 import SlVerif.Model.RelaySpec
+/-
+  C15 / C16 — proof infrastructure for the in-memory relay (model: SlVerif/Model/Relay.lean, spec:
+  SlVerif/Model/RelaySpec.lean).  Core Lean only.  The property theorems are in Props/C15.lean, Props/C16.lean.
+
+  Contents
+    1. association-list lemmas (`lookup`, `erase`, `insert`; `erase` removes every occurrence, so no
+       distinctness hypothesis is needed for the per-id lemmas);
+    2. the cleanup loop per id (`lookup_foldl_cleanupOne`) and `cleanup_perm`: pop order is irrelevant;
+    3. the reachable-state invariant `WF` (structural) / `Inv now` (+ nothing due before `now`) and its
+       preservation by `cleanup`, `send`, `recv` at any time;
+    4. the abstraction `abs : State → RelaySpec.Spec` and the refinement of `RelaySpec.publish/ask/step`
+       (equal deliveries, `abs` commutes, as *lists*), `specRun`, `refines_run`;
+    5. histories: `step_cases` (every op is an ask, a publication or a no-op), `run_append`,
+       `run_outputs_getElem?`, `run_induction`;
+    6. history invariants `Keyed`, `HistInv`; counting (`step_count`, `run_count`);
+    7. lifetimes: `ready_run`, `ready_expired`, `waiters_run`; memory: `WF.msgs_length_le`,
+       `heap_sublist_pushes`.
+-/
 
 namespace SlVerif.Relay
 
@@ -138,9 +156,6 @@ theorem cleanup_perm (now : Nat) (s : State) (l' : List Expire)
   · exact hp.mem_iff.2 he
   · exact hp.mem_iff.1 he
 
-end SlVerif.Relay
-
-namespace SlVerif.Relay
 
 /-! ### the reachable-state invariant -/
 
@@ -287,9 +302,6 @@ theorem pubExp_cleanup {s : State} (h : WF s) {now : Nat} {i : Id} {m : Bytes}
     rw [pubs_filter, h.pubs_eq h1]; simp; omega
   simp [pubExp, this]
 
-end SlVerif.Relay
-
-namespace SlVerif.Relay
 
 /-! ### storing an entry and pushing its heap entry -/
 
@@ -468,6 +480,14 @@ theorem Inv_recv {s : State} (h : WF s) (conn : Nat) (id : Id) (ttl : Nat) (now 
     · exact Nat.le_of_lt (mem_cleanup_heap.1 he).2
     · simp at he; subst he; simp
 
+/-- time-monotone use: from the invariant of the previous operation (time `now`) to that of the next (`now' ≥ now`).
+    (`now ≤ now'` is not even needed: `cleanup now'` re-establishes the time bound from the structural part alone.) -/
+theorem Inv.send {now now' : Nat} {s : State} (h : Inv now s) (_hle : now ≤ now') (id : Id) (ttl : Nat) (frame : Bytes) :
+    Inv now' (send s id ttl frame now').1 := Inv_send h.1 ..
+
+theorem Inv.recv {now now' : Nat} {s : State} (h : Inv now s) (_hle : now ≤ now') (conn : Nat) (id : Id) (ttl : Nat) :
+    Inv now' (recv s conn id ttl now').1 := Inv_recv h.1 ..
+
 /-- consequences of `Inv now`: no map entry whose lifetime ended before `now` -/
 theorem Inv.ready_exp {now : Nat} {s : State} (h : Inv now s) {i : Id} {m : Bytes}
     (hl : lookup i s.msgs = some (.ready m)) : now ≤ pubExp i s.heap :=
@@ -477,9 +497,6 @@ theorem Inv.waiters_exp {now : Nat} {s : State} (h : Inv now s) {i : Id} {exp : 
     (hl : lookup i s.msgs = some (.waiters exp conns)) : now ≤ exp :=
   h.2 _ (h.1.waiters_ask _ _ _ hl).2
 
-end SlVerif.Relay
-
-namespace SlVerif.Relay
 open SlVerif.RelaySpec (SEntry Spec)
 
 /-! ### the loop as a filter (list level; needs distinct keys) -/
@@ -649,6 +666,28 @@ def specRun (sp : Spec) (now : Nat) : List Op → (Spec × Nat) × List (List De
       let (r, ds) := specRun sp' now' ops
       (r, d :: ds)
 
+/-- the same as a left fold with an accumulator (the shape a driver loop has) -/
+def specFold (ops : List Op) : (Spec × Nat) × List (List Delivery) :=
+  ops.foldl (fun acc op =>
+    let r := RelaySpec.step acc.1.1 acc.1.2 op
+    ((r.1, r.2.1), acc.2 ++ [r.2.2])) (([], 0), [])
+
+theorem specFold_eq (ops : List Op) : specFold ops = specRun [] 0 ops := by
+  have gen : ∀ (ops : List Op) (sp : Spec) (now : Nat) (acc : List (List Delivery)),
+      ops.foldl (fun (acc : (Spec × Nat) × List (List Delivery)) op =>
+        let r := RelaySpec.step acc.1.1 acc.1.2 op
+        ((r.1, r.2.1), acc.2 ++ [r.2.2])) ((sp, now), acc) =
+      ((specRun sp now ops).1, acc ++ (specRun sp now ops).2) := by
+    intro ops
+    induction ops with
+    | nil => intro sp now acc; simp [specRun]
+    | cons op l ih =>
+      intro sp now acc
+      simp only [List.foldl_cons, ih, specRun, List.append_assoc, List.singleton_append]
+  have := gen ops [] 0 []
+  simp only [List.nil_append] at this
+  exact this
+
 theorem WF_step {y : Sys} (h : WF y.st) (op : Op) : WF (step y op).1.st := by
   cases op with
   | tick k => exact h
@@ -703,5 +742,784 @@ theorem refines_run {y : Sys} (h : WF y.st) (ops : List Op) :
     have := ih (WF_step h op)
     refine ⟨?_, this.2⟩
     simp only [specRun, run, refines_step h op, this.1]
+
+
+/-! ### frames and operations -/
+
+theorem hdr_size : MESSAGE_HEADER_SIZE = 36 := rfl
+
+theorem decodeHdr?_eq_none {f : Bytes} (h : f.length < 36) : decodeHdr? f = none := by
+  simp [decodeHdr?, hdr_size, h]
+
+theorem decodeHdr?_eq_some {f : Bytes} (h : 36 ≤ f.length) :
+    decodeHdr? f = some ⟨f.take 32, leToNat ((f.drop 32).take 2), leToNat ((f.drop 34).take 2)⟩ := by
+  have : ¬ f.length < 36 := by omega
+  simp [decodeHdr?, hdr_size, MESSAGE_ID_SIZE, this]
+
+theorem decodeHdr?_length {f : Bytes} {h : Hdr} (hd : decodeHdr? f = some h) : 36 ≤ f.length := by
+  apply Nat.le_of_not_lt; intro hlt; rw [decodeHdr?_eq_none hlt] at hd; cases hd
+
+/-- the message id in the header of a frame (none if the frame is shorter than a header) -/
+def hdrId (f : Bytes) : Option Id := (decodeHdr? f).map (·.id)
+
+/-- the time-to-live in the header of a frame (0 if there is none) -/
+def hdrTtl (f : Bytes) : Nat := ((decodeHdr? f).map (·.ttl)).getD 0
+
+theorem hdrId_of_decode {f : Bytes} {h : Hdr} (hd : decodeHdr? f = some h) : hdrId f = some h.id := by
+  simp [hdrId, hd]
+
+theorem hdrTtl_of_decode {f : Bytes} {h : Hdr} (hd : decodeHdr? f = some h) : hdrTtl f = h.ttl := by
+  simp [hdrTtl, hd]
+
+/-- seconds by which an operation advances the clock -/
+def Op.secs : Op → Nat
+  | .tick k => k
+  | _ => 0
+
+/-- `op` is an ask (header-only frame) by connection `c` for id `i` -/
+def Op.asks (c : Nat) (i : Id) : Op → Bool
+  | .frame c' a => decide (c' = c ∧ a.length = 36 ∧ hdrId a = some i)
+  | _ => false
+
+/-- `op` is an ask by any connection for id `i` -/
+def Op.asksId (i : Id) : Op → Bool
+  | .frame _ a => decide (a.length = 36 ∧ hdrId a = some i)
+  | _ => false
+
+/-- `op` publishes a frame (longer than a header) under id `i` -/
+def Op.publishes (i : Id) : Op → Bool
+  | .frame _ f => decide (36 < f.length ∧ hdrId f = some i)
+  | .service f => decide (36 < f.length ∧ hdrId f = some i)
+  | .tick _ => false
+
+/-- `op` publishes exactly the frame `f` -/
+def Op.publishesFrame (f : Bytes) : Op → Bool
+  | .frame _ g => decide (36 < g.length ∧ g = f)
+  | .service g => decide (36 < g.length ∧ g = f)
+  | .tick _ => false
+
+/-- `op` reaches `Inner::recv` / `Inner::send` (it is not a clock tick and not a rejected / ignored frame) -/
+def Op.isRelay : Op → Bool
+  | .frame _ b => decide (36 ≤ b.length)
+  | .service b => decide (36 < b.length)
+  | .tick _ => false
+
+/-- the heap entry an operation executed at time `t` pushes *if* it pushes one -/
+def pushOf (t : Nat) : Op → Option Expire
+  | .frame _ b =>
+      match decodeHdr? b with
+      | none => none
+      | some h => some ⟨t + h.ttl, h.id, if b.length = 36 then .ask else .pub⟩
+  | .service b =>
+      match decodeHdr? b with
+      | none => none
+      | some h => if b.length ≤ 36 then none else some ⟨t + h.ttl, h.id, .pub⟩
+  | .tick _ => none
+
+theorem step_now (y : Sys) (op : Op) : (step y op).1.now = y.now + op.secs := by
+  cases op <;> simp [step, Op.secs]
+
+/-- Every operation is an ask (→ `recv`), a publication (→ `send`), or leaves the relay state alone. -/
+theorem step_cases (y : Sys) (op : Op) :
+    (∃ c a h, op = .frame c a ∧ a.length = 36 ∧ decodeHdr? a = some h ∧
+        (step y op).1 = { y with st := (recv y.st c h.id h.ttl y.now).1 } ∧
+        (step y op).2.1 = (recv y.st c h.id h.ttl y.now).2) ∨
+    (∃ f h, (op = .service f ∨ ∃ c, op = .frame c f) ∧ 36 < f.length ∧ decodeHdr? f = some h ∧
+        (step y op).1 = { y with st := (send y.st h.id h.ttl f y.now).1 } ∧
+        (step y op).2.1 = (send y.st h.id h.ttl f y.now).2) ∨
+    ((step y op).1.st = y.st ∧ (step y op).2.1 = [] ∧ op.isRelay = false) := by
+  cases op with
+  | tick k => right; right; simp [step, Op.isRelay]
+  | frame c b =>
+    cases hd : decodeHdr? b with
+    | none =>
+      right; right
+      have : b.length < 36 := by
+        apply Nat.lt_of_not_le; intro h; rw [decodeHdr?_eq_some h] at hd; cases hd
+      simp [step, startSend, hd, Op.isRelay, this]
+    | some h =>
+      have hl := decodeHdr?_length hd
+      by_cases h36 : b.length = 36
+      · left; exact ⟨c, b, h, rfl, h36, hd, by simp [step, startSend, hd, hdr_size, h36]⟩
+      · right; left
+        exact ⟨b, h, Or.inr ⟨c, rfl⟩, by omega, hd, by simp [step, startSend, hd, hdr_size, h36]⟩
+  | service b =>
+    cases hd : decodeHdr? b with
+    | none => right; right
+              have : b.length < 36 := by
+                apply Nat.lt_of_not_le; intro h; rw [decodeHdr?_eq_some h] at hd; cases hd
+              simp [step, serviceSend, hd, Op.isRelay]; omega
+    | some h =>
+      by_cases h36 : b.length ≤ 36
+      · right; right; simp [step, serviceSend, hd, hdr_size, h36, Op.isRelay]
+      · right; left
+        exact ⟨b, h, Or.inl rfl, by omega, hd, by simp [step, serviceSend, hd, hdr_size, h36]⟩
+
+/-! ### histories: splitting, indexing -/
+
+theorem run_cons (y : Sys) (op : Op) (ops : List Op) :
+    run y (op :: ops) = ((run (step y op).1 ops).1, (step y op).2.1 :: (run (step y op).1 ops).2) := rfl
+
+theorem run_append (y : Sys) (l₁ l₂ : List Op) :
+    run y (l₁ ++ l₂) = ((run (run y l₁).1 l₂).1, (run y l₁).2 ++ (run (run y l₁).1 l₂).2) := by
+  induction l₁ generalizing y with
+  | nil => rfl
+  | cons op l ih => simp only [List.cons_append, run_cons, ih]
+
+theorem run_outputs_length (y : Sys) (ops : List Op) : (run y ops).2.length = ops.length := by
+  induction ops generalizing y with
+  | nil => rfl
+  | cons op l ih => simp [run_cons, ih]
+
+/-- the deliveries of the `k`-th operation are those of `step` on the state reached by the first `k` operations -/
+theorem run_outputs_getElem? (y : Sys) (ops : List Op) (k : Nat) :
+    (run y ops).2[k]? = (ops[k]?).map fun op => (step (run y (ops.take k)).1 op).2.1 := by
+  induction ops generalizing y k with
+  | nil => simp [run]
+  | cons op l ih =>
+    cases k with
+    | zero => simp [run]
+    | succ k => simp [run_cons, ih]
+
+theorem run_now (y : Sys) (ops : List Op) : (run y ops).1.now = y.now + (ops.map Op.secs).sum := by
+  induction ops generalizing y with
+  | nil => simp [run]
+  | cons op l ih => simp [run_cons, ih, step_now]; omega
+
+theorem run_now_le (y : Sys) (ops : List Op) : y.now ≤ (run y ops).1.now := by
+  rw [run_now]; omega
+
+theorem run_take_now_le (y : Sys) (ops : List Op) (j : Nat) : (run y (ops.take j)).1.now ≤ (run y ops).1.now := by
+  conv => rhs; rw [← List.take_append_drop j ops, run_append]
+  exact run_now_le _ _
+
+theorem WF_run {y : Sys} (h : WF y.st) (ops : List Op) : WF (run y ops).1.st := (refines_run h ops).2
+
+theorem WF_reach (ops : List Op) : WF (run {} ops).1.st := WF_run (y := {}) WF_init ops
+
+/-- induction over histories with an invariant that may mention the operations executed so far -/
+theorem run_induction {P : List Op → Sys → Prop} {H : List Op} {y : Sys} (h0 : P H y) (hwf : WF y.st)
+    (hstep : ∀ H y op, P H y → WF y.st → P (H ++ [op]) (step y op).1) (ops : List Op) :
+    P (H ++ ops) (run y ops).1 := by
+  induction ops generalizing H y with
+  | nil => simpa [run] using h0
+  | cons op l ih =>
+    have := ih (hstep H y op h0 hwf) (WF_step hwf op)
+    simpa [run_cons] using this
+
+theorem mem_take_succ {ops : List Op} {k : Nat} {op : Op} (h : op ∈ ops.take (k + 1)) :
+    ∃ j, j ≤ k ∧ ops[j]? = some op := by
+  obtain ⟨j, hj⟩ := List.mem_iff_getElem?.1 h
+  rw [List.getElem?_take] at hj
+  by_cases hjk : j < k + 1
+  · exact ⟨j, by omega, by simpa [hjk] using hj⟩
+  · simp [hjk] at hj
+
+
+/-! ### the map after `send` / `recv`, per id -/
+
+theorem lookup_cleanup_some {now : Nat} {s : State} {i : Id} {v : Entry}
+    (h : lookup i (cleanup now s).msgs = some v) : lookup i s.msgs = some v :=
+  ((lookup_foldl_cleanupOne ..).1 h).1
+
+theorem lookup_send (s : State) (id : Id) (ttl : Nat) (frame : Bytes) (now : Nat) (i : Id) :
+    lookup i (send s id ttl frame now).1.msgs =
+      if id = i then
+        (match lookup id (cleanup now s).msgs with
+          | some (.ready m) => some (.ready m)
+          | _ => some (.ready frame))
+      else lookup i (cleanup now s).msgs := by
+  rcases entry_cases (lookup id (cleanup now s).msgs) with ⟨m, hl⟩ | ⟨exp, conns, hl⟩ | hl
+  · rw [send_ready hl]
+    by_cases h : id = i
+    · subst h; simp [hl]
+    · simp [h]
+  · rw [send_waiters hl]
+    by_cases h : id = i
+    · subst h; simp [hl, lookup_insert]
+    · simp [h, lookup_insert]
+  · rw [send_none hl]
+    by_cases h : id = i
+    · subst h; simp [hl, lookup_insert]
+    · simp [h, lookup_insert]
+
+theorem lookup_recv (s : State) (conn : Nat) (id : Id) (ttl : Nat) (now : Nat) (i : Id) :
+    lookup i (recv s conn id ttl now).1.msgs =
+      if id = i then
+        (match lookup id (cleanup now s).msgs with
+          | some (.ready m) => some (.ready m)
+          | some (.waiters e cs) => some (.waiters (max (now + ttl) e) (cs ++ [conn]))
+          | none => some (.waiters (now + ttl) [conn]))
+      else lookup i (cleanup now s).msgs := by
+  rcases entry_cases (lookup id (cleanup now s).msgs) with ⟨m, hl⟩ | ⟨exp, conns, hl⟩ | hl
+  · rw [recv_ready hl]
+    by_cases h : id = i
+    · subst h; simp [hl]
+    · simp [h]
+  · rw [recv_waiters hl]
+    by_cases h : id = i
+    · subst h; simp [hl, lookup_insert]
+    · simp [h, lookup_insert]
+  · rw [recv_none hl]
+    by_cases h : id = i
+    · subst h; simp [hl, lookup_insert]
+    · simp [h, lookup_insert]
+
+theorem send_deliveries (s : State) (id : Id) (ttl : Nat) (frame : Bytes) (now : Nat) :
+    (send s id ttl frame now).2 =
+      match lookup id (cleanup now s).msgs with
+      | some (.waiters _ conns) => conns.map fun c => (c, frame)
+      | _ => [] := by
+  rcases entry_cases (lookup id (cleanup now s).msgs) with ⟨m, hl⟩ | ⟨exp, conns, hl⟩ | hl
+  · rw [send_ready hl, hl]
+  · rw [send_waiters hl, hl]
+  · rw [send_none hl, hl]
+
+theorem recv_deliveries (s : State) (conn : Nat) (id : Id) (ttl : Nat) (now : Nat) :
+    (recv s conn id ttl now).2 =
+      match lookup id (cleanup now s).msgs with
+      | some (.ready m) => [(conn, m)]
+      | _ => [] := by
+  rcases entry_cases (lookup id (cleanup now s).msgs) with ⟨m, hl⟩ | ⟨exp, conns, hl⟩ | hl
+  · rw [recv_ready hl, hl]
+  · rw [recv_waiters hl, hl]
+  · rw [recv_none hl, hl]
+
+theorem pubExp_recv (s : State) (conn : Nat) (id : Id) (ttl : Nat) (now : Nat) (i : Id) :
+    pubExp i (recv s conn id ttl now).1.heap = pubExp i (cleanup now s).heap := by
+  rcases recv_heap s conn id ttl now with h | h <;> rw [h]
+  exact pubExp_push_other _ _ (Or.inr rfl)
+
+theorem pubExp_send_other (s : State) (id : Id) (ttl : Nat) (frame : Bytes) (now : Nat) {i : Id} (hi : id ≠ i) :
+    pubExp i (send s id ttl frame now).1.heap = pubExp i (cleanup now s).heap := by
+  rcases send_heap s id ttl frame now with h | h <;> rw [h]
+  exact pubExp_push_other _ _ (Or.inl hi)
+
+/-! ### stored frames are filed under their own header id -/
+
+def Keyed (s : State) : Prop := ∀ i m, lookup i s.msgs = some (.ready m) → 36 < m.length ∧ hdrId m = some i
+
+theorem Keyed_init : Keyed {} := by intro i m h; simp at h
+
+theorem Keyed_step {y : Sys} (hk : Keyed y.st) (op : Op) : Keyed (step y op).1.st := by
+  rcases step_cases y op with ⟨c, a, h, rfl, ha, hd, hs, _⟩ | ⟨f, h, _, hf, hd, hs, _⟩ | ⟨hs, _, _⟩
+  · rw [hs]; intro i m hl
+    simp only [lookup_recv] at hl
+    by_cases hi : h.id = i
+    · simp only [hi, if_true] at hl
+      rcases entry_cases (lookup i (cleanup y.now y.st).msgs) with ⟨m', hl'⟩ | ⟨exp, conns, hl'⟩ | hl'
+      · rw [hl'] at hl; simp at hl; subst hl; exact hk i m' (lookup_cleanup_some hl')
+      · rw [hl'] at hl; simp at hl
+      · rw [hl'] at hl; simp at hl
+    · simp only [hi, if_false] at hl; exact hk i m (lookup_cleanup_some hl)
+  · rw [hs]; intro i m hl
+    simp only [lookup_send] at hl
+    by_cases hi : h.id = i
+    · simp only [hi, if_true] at hl
+      rcases entry_cases (lookup i (cleanup y.now y.st).msgs) with ⟨m', hl'⟩ | ⟨exp, conns, hl'⟩ | hl'
+      · rw [hl'] at hl; simp at hl; subst hl; exact hk i m' (lookup_cleanup_some hl')
+      · rw [hl'] at hl; simp at hl; subst hl; exact ⟨hf, hi ▸ hdrId_of_decode hd⟩
+      · rw [hl'] at hl; simp at hl; subst hl; exact ⟨hf, hi ▸ hdrId_of_decode hd⟩
+    · simp only [hi, if_false] at hl; exact hk i m (lookup_cleanup_some hl)
+  · rw [hs]; exact hk
+
+/-- where a delivery comes from: an immediate answer to this very ask, or this very publication reaching a waiter -/
+theorem step_delivery {y : Sys} (hk : Keyed y.st) {op : Op} {c : Nat} {f : Bytes}
+    (hd : (c, f) ∈ (step y op).2.1) :
+    ∃ i, hdrId f = some i ∧ 36 < f.length ∧
+      ((op.asks c i = true ∧ lookup i (cleanup y.now y.st).msgs = some (.ready f)) ∨
+       (op.publishesFrame f = true ∧ ∃ exp conns,
+          lookup i (cleanup y.now y.st).msgs = some (.waiters exp conns) ∧ c ∈ conns)) := by
+  rcases step_cases y op with ⟨c', a, h, rfl, ha, hdec, _, hs⟩ | ⟨g, h, hop, hg, hdec, _, hs⟩ | ⟨_, hs, _⟩
+  · rw [hs, recv_deliveries] at hd
+    rcases entry_cases (lookup h.id (cleanup y.now y.st).msgs) with ⟨m, hl⟩ | ⟨exp, conns, hl⟩ | hl
+    · rw [hl] at hd; simp at hd; obtain ⟨rfl, rfl⟩ := hd
+      obtain ⟨h1, h2⟩ := hk _ _ (lookup_cleanup_some hl)
+      exact ⟨h.id, h2, h1, Or.inl ⟨by simp [Op.asks, ha, hdrId_of_decode hdec], hl⟩⟩
+    · rw [hl] at hd; simp at hd
+    · rw [hl] at hd; simp at hd
+  · rw [hs, send_deliveries] at hd
+    rcases entry_cases (lookup h.id (cleanup y.now y.st).msgs) with ⟨m, hl⟩ | ⟨exp, conns, hl⟩ | hl
+    · rw [hl] at hd; simp at hd
+    · rw [hl] at hd; simp at hd; obtain ⟨c2, hc, rfl, rfl⟩ := hd
+      refine ⟨h.id, hdrId_of_decode hdec, hg, Or.inr ⟨?_, exp, conns, hl, hc⟩⟩
+      rcases hop with rfl | ⟨c', rfl⟩ <;> simp [Op.publishesFrame, hg]
+    · rw [hl] at hd; simp at hd
+  · rw [hs] at hd; simp at hd
+
+/-! ### what is stored was published, who waits has asked (relative to the history so far) -/
+
+def HistInv (H : List Op) (s : State) : Prop :=
+  (∀ i m, lookup i s.msgs = some (.ready m) → ∃ op ∈ H, op.publishesFrame m = true) ∧
+  (∀ i exp conns, lookup i s.msgs = some (.waiters exp conns) → ∀ c ∈ conns, ∃ op ∈ H, op.asks c i = true)
+
+theorem HistInv_init : HistInv [] {} := ⟨by intro i m h; simp at h, by intro i e c h; simp at h⟩
+
+theorem HistInv_step {H : List Op} {y : Sys} (hi : HistInv H y.st) (op : Op) :
+    HistInv (H ++ [op]) (step y op).1.st := by
+  have weak1 : ∀ i m, lookup i (cleanup y.now y.st).msgs = some (.ready m) →
+      ∃ o ∈ H ++ [op], o.publishesFrame m = true := by
+    intro i m hl
+    obtain ⟨o, ho, h⟩ := hi.1 i m (lookup_cleanup_some hl)
+    exact ⟨o, by simp [ho], h⟩
+  have weak2 : ∀ i exp conns, lookup i (cleanup y.now y.st).msgs = some (.waiters exp conns) →
+      ∀ c ∈ conns, ∃ o ∈ H ++ [op], o.asks c i = true := by
+    intro i exp conns hl c hc
+    obtain ⟨o, ho, h⟩ := hi.2 i exp conns (lookup_cleanup_some hl) c hc
+    exact ⟨o, by simp [ho], h⟩
+  rcases step_cases y op with ⟨c, a, h, rfl, ha, hd, hs, _⟩ | ⟨f, h, hop, hf, hd, hs, _⟩ | ⟨hs, _, _⟩
+  · rw [hs]; constructor
+    · intro i m hl
+      simp only [lookup_recv] at hl
+      by_cases hid : h.id = i
+      · simp only [hid, if_true] at hl
+        rcases entry_cases (lookup i (cleanup y.now y.st).msgs) with ⟨m', hl'⟩ | ⟨exp, conns, hl'⟩ | hl'
+        · rw [hl'] at hl; simp at hl; subst hl; exact weak1 i m' hl'
+        · rw [hl'] at hl; simp at hl
+        · rw [hl'] at hl; simp at hl
+      · simp only [hid, if_false] at hl; exact weak1 i m hl
+    · intro i exp conns hl c' hc'
+      simp only [lookup_recv] at hl
+      by_cases hid : h.id = i
+      · simp only [hid, if_true] at hl
+        have hme : ∃ o ∈ H ++ [Op.frame c a], o.asks c i = true :=
+          ⟨.frame c a, by simp, by simp [Op.asks, ha, hdrId_of_decode hd, hid]⟩
+        rcases entry_cases (lookup i (cleanup y.now y.st).msgs) with ⟨m', hl'⟩ | ⟨exp', conns', hl'⟩ | hl'
+        · rw [hl'] at hl; simp at hl
+        · rw [hl'] at hl; simp at hl; obtain ⟨rfl, rfl⟩ := hl
+          rcases List.mem_append.1 hc' with hc' | hc'
+          · exact weak2 i exp' conns' hl' c' hc'
+          · simp at hc'; subst hc'; exact hme
+        · rw [hl'] at hl; simp at hl; obtain ⟨rfl, rfl⟩ := hl
+          simp at hc'; subst hc'; exact hme
+      · simp only [hid, if_false] at hl; exact weak2 i exp conns hl c' hc'
+  · rw [hs]; constructor
+    · intro i m hl
+      simp only [lookup_send] at hl
+      have hme : ∃ o ∈ H ++ [op], o.publishesFrame f = true :=
+        ⟨op, by simp, by rcases hop with rfl | ⟨c', rfl⟩ <;> simp [Op.publishesFrame, hf]⟩
+      by_cases hid : h.id = i
+      · simp only [hid, if_true] at hl
+        rcases entry_cases (lookup i (cleanup y.now y.st).msgs) with ⟨m', hl'⟩ | ⟨exp, conns, hl'⟩ | hl'
+        · rw [hl'] at hl; simp at hl; subst hl; exact weak1 i m' hl'
+        · rw [hl'] at hl; simp at hl; subst hl; exact hme
+        · rw [hl'] at hl; simp at hl; subst hl; exact hme
+      · simp only [hid, if_false] at hl; exact weak1 i m hl
+    · intro i exp conns hl c' hc'
+      simp only [lookup_send] at hl
+      by_cases hid : h.id = i
+      · simp only [hid, if_true] at hl
+        rcases entry_cases (lookup i (cleanup y.now y.st).msgs) with ⟨m', hl'⟩ | ⟨exp', conns', hl'⟩ | hl'
+        · rw [hl'] at hl; simp at hl
+        · rw [hl'] at hl; simp at hl
+        · rw [hl'] at hl; simp at hl
+      · simp only [hid, if_false] at hl; exact weak2 i exp conns hl c' hc'
+  · rw [hs]
+    exact ⟨fun i m hl => let ⟨o, ho, h⟩ := hi.1 i m hl; ⟨o, by simp [ho], h⟩,
+           fun i e cs hl c hc => let ⟨o, ho, h⟩ := hi.2 i e cs hl c hc; ⟨o, by simp [ho], h⟩⟩
+
+/-- everything that holds of every reachable state, relative to its history -/
+theorem reachable (ops : List Op) :
+    WF (run {} ops).1.st ∧ Keyed (run {} ops).1.st ∧ HistInv ops (run {} ops).1.st := by
+  have := run_induction (P := fun H y => Keyed y.st ∧ HistInv H y.st) (H := []) (y := {})
+    ⟨Keyed_init, HistInv_init⟩ WF_init (fun H y op h _ => ⟨Keyed_step h.1 op, HistInv_step h.2 op⟩) ops
+  exact ⟨WF_run WF_init ops, by simpa using this⟩
+
+
+/-! ### counting deliveries against asks -/
+
+/-- number of times connection `c` is registered as waiting for id `i` -/
+def pending (s : State) (c : Nat) (i : Id) : Nat :=
+  match lookup i s.msgs with
+  | some (.waiters _ conns) => conns.count c
+  | _ => 0
+
+/-- number of deliveries to connection `c` of frames whose header carries id `i` -/
+def deliveredTo (c : Nat) (i : Id) (ds : List Delivery) : Nat :=
+  ds.countP fun d => decide (d.1 = c ∧ hdrId d.2 = some i)
+
+theorem pending_cleanup_le (now : Nat) (s : State) (c : Nat) (i : Id) :
+    pending (cleanup now s) c i ≤ pending s c i := by
+  unfold pending
+  rcases entry_cases (lookup i (cleanup now s).msgs) with ⟨m, hl⟩ | ⟨exp, conns, hl⟩ | hl
+  · simp [hl]
+  · simp [hl, lookup_cleanup_some hl]
+  · simp [hl]
+
+theorem deliveredTo_map (c : Nat) (i : Id) (conns : List Nat) (f : Bytes) :
+    deliveredTo c i (conns.map fun c' => (c', f)) = if hdrId f = some i then conns.count c else 0 := by
+  unfold deliveredTo
+  induction conns with
+  | nil => simp
+  | cons a l ih =>
+    simp only [List.map_cons, List.countP_cons, ih, List.count_cons]
+    by_cases h : hdrId f = some i <;> by_cases h2 : a = c <;> simp [h, h2]
+
+/-- one step: new deliveries to `c` under `i` are paid for by registrations of `c` for `i`, or by this very ask -/
+theorem step_count {y : Sys} (hk : Keyed y.st) (op : Op) (c : Nat) (i : Id) :
+    deliveredTo c i (step y op).2.1 + pending (step y op).1.st c i ≤
+      pending y.st c i + (if op.asks c i then 1 else 0) := by
+  have hcl := pending_cleanup_le y.now y.st c i
+  rcases step_cases y op with ⟨c', a, h, rfl, ha, hd, hs, hs'⟩ | ⟨f, h, hop, hf, hd, hs, hs'⟩ | ⟨hs, hs', _⟩
+  · rw [hs, hs', recv_deliveries]
+    have hasks : (Op.frame c' a).asks c i = decide (c' = c ∧ h.id = i) := by
+      simp [Op.asks, ha, hdrId_of_decode hd]
+    rw [hasks]
+    simp only [pending, lookup_recv] at hcl ⊢
+    by_cases hid : h.id = i
+    · subst hid
+      rcases entry_cases (lookup h.id (cleanup y.now y.st).msgs) with ⟨m, hl⟩ | ⟨exp, conns, hl⟩ | hl
+      · have := (hk _ _ (lookup_cleanup_some hl)).2
+        simp only [hl, deliveredTo, if_true] at hcl ⊢
+        by_cases hc : c' = c <;> simp [hc, this] <;> omega
+      · simp only [hl, deliveredTo, if_true] at hcl ⊢
+        by_cases hc : c' = c <;> simp [hc, List.count_append] <;> omega
+      · simp only [hl, deliveredTo, if_true] at hcl ⊢
+        by_cases hc : c' = c <;> simp [hc]
+    · simp only [hid, if_false, and_false, decide_false] at hcl ⊢
+      have : deliveredTo c i (match lookup h.id (cleanup y.now y.st).msgs with
+          | some (.ready m) => [(c', m)] | _ => []) = 0 := by
+        rcases entry_cases (lookup h.id (cleanup y.now y.st).msgs) with ⟨m, hl⟩ | ⟨exp, conns, hl⟩ | hl
+        · have := (hk _ _ (lookup_cleanup_some hl)).2
+          simp [hl, deliveredTo, this, hid]
+        · simp [hl, deliveredTo]
+        · simp [hl, deliveredTo]
+      rw [this]; simp; exact hcl
+  · rw [hs, hs', send_deliveries]
+    have hasks : op.asks c i = false := by
+      rcases hop with rfl | ⟨c', rfl⟩
+      · rfl
+      · simp [Op.asks]; intro _ h36; omega
+    rw [hasks]
+    simp only [pending, lookup_send] at hcl ⊢
+    have hfi := hdrId_of_decode hd
+    by_cases hid : h.id = i
+    · subst hid
+      rcases entry_cases (lookup h.id (cleanup y.now y.st).msgs) with ⟨m, hl⟩ | ⟨exp, conns, hl⟩ | hl
+      · simp only [hl, if_true] at hcl ⊢; simp [deliveredTo]
+      · simp only [hl, if_true, deliveredTo_map, hfi] at hcl ⊢; simpa using hcl
+      · simp only [hl, if_true] at hcl ⊢; simp [deliveredTo]
+    · simp only [hid, if_false] at hcl ⊢
+      have : deliveredTo c i (match lookup h.id (cleanup y.now y.st).msgs with
+          | some (.waiters _ conns) => conns.map fun c => (c, f) | _ => []) = 0 := by
+        have hne : ¬ hdrId f = some i := by rw [hfi]; simpa using hid
+        rcases entry_cases (lookup h.id (cleanup y.now y.st).msgs) with ⟨m, hl⟩ | ⟨exp, conns, hl⟩ | hl
+        · simp [hl, deliveredTo]
+        · simp [hl, deliveredTo_map, hne]
+        · simp [hl, deliveredTo]
+      rw [this]; simpa using hcl
+  · rw [hs, hs']; simp [deliveredTo]
+
+theorem run_count {y : Sys} (hk : Keyed y.st) (ops : List Op) (c : Nat) (i : Id) :
+    deliveredTo c i (run y ops).2.flatten + pending (run y ops).1.st c i ≤
+      pending y.st c i + ops.countP (Op.asks c i) := by
+  induction ops generalizing y with
+  | nil => simp [run, deliveredTo]
+  | cons op l ih =>
+    have h1 := step_count hk op c i
+    have h2 := ih (Keyed_step hk op)
+    simp only [run_cons, List.flatten_cons, List.countP_cons]
+    have : deliveredTo c i ((step y op).2.1 ++ (run (step y op).1 l).2.flatten) =
+        deliveredTo c i (step y op).2.1 + deliveredTo c i (run (step y op).1 l).2.flatten := by
+      simp [deliveredTo, List.countP_append]
+    rw [this]
+    by_cases ha : op.asks c i = true <;> simp [ha] at h1 ⊢ <;> omega
+
+/-! ### a stored message during its lifetime, and at its end -/
+
+theorem ready_step {y : Sys} (hwf : WF y.st) {i : Id} {m : Bytes} (hl : lookup i y.st.msgs = some (.ready m))
+    (hlt : y.now < pubExp i y.st.heap) (op : Op) :
+    lookup i (step y op).1.st.msgs = some (.ready m) ∧ pubExp i (step y op).1.st.heap = pubExp i y.st.heap := by
+  have hc : lookup i (cleanup y.now y.st).msgs = some (.ready m) := (lookup_cleanup_ready hwf _ _ _).2 ⟨hl, hlt⟩
+  have hp := pubExp_cleanup hwf hc
+  rcases step_cases y op with ⟨c, a, h, rfl, ha, hd, hs, _⟩ | ⟨f, h, _, hf, hd, hs, _⟩ | ⟨hs, _, _⟩
+  · rw [hs]; refine ⟨?_, by rw [← hp]; exact pubExp_recv ..⟩
+    simp only [lookup_recv]
+    by_cases hid : h.id = i
+    · subst hid; simp [hc]
+    · simp [hid, hc]
+  · rw [hs]
+    by_cases hid : h.id = i
+    · subst hid; simp only [send_ready hc]; exact ⟨hc, hp⟩
+    · refine ⟨?_, by rw [← hp]; exact pubExp_send_other _ _ _ _ _ hid⟩
+      simp [lookup_send, hid, hc]
+  · rw [hs]; exact ⟨hl, rfl⟩
+
+/-- **kept**: while the clock stays below the publication's own expiry, nothing removes or replaces it -/
+theorem ready_run {y : Sys} (hwf : WF y.st) {i : Id} {m : Bytes} (hl : lookup i y.st.msgs = some (.ready m))
+    (cont : List Op) (hlt : (run y cont).1.now < pubExp i y.st.heap) :
+    lookup i (run y cont).1.st.msgs = some (.ready m) ∧
+      pubExp i (run y cont).1.st.heap = pubExp i y.st.heap := by
+  induction cont generalizing y with
+  | nil => exact ⟨hl, rfl⟩
+  | cons op l ih =>
+    rw [run_cons] at hlt ⊢
+    simp only at hlt ⊢
+    have hnow : y.now < pubExp i y.st.heap := by
+      have := run_now_le (step y op).1 l; rw [step_now] at this; omega
+    obtain ⟨h1, h2⟩ := ready_step hwf hl hnow op
+    have := ih (WF_step hwf op) h1 (by rw [h2]; exact hlt)
+    exact ⟨this.1, by rw [this.2, h2]⟩
+
+/-- **dropped**: the first relay operation at or after the expiry removes it (before acting) -/
+theorem ready_expired {s : State} (hwf : WF s) {i : Id} {m : Bytes} (hl : lookup i s.msgs = some (.ready m))
+    {now : Nat} (hge : pubExp i s.heap ≤ now) : lookup i (cleanup now s).msgs = none := by
+  rcases entry_cases (lookup i (cleanup now s).msgs) with ⟨m', h⟩ | ⟨exp, conns, h⟩ | h
+  · have := ((lookup_cleanup_ready hwf _ _ _).1 h).2; omega
+  · have := lookup_cleanup_some h; rw [hl] at this; cases this
+  · exact h
+
+/-! ### a waiters entry: grows by asks, stays until its (growing) deadline -/
+
+/-- the connection that joins the waiters of `i` by this operation, if any -/
+def Op.asker (i : Id) : Op → List Nat
+  | .frame c a => if a.length = 36 ∧ hdrId a = some i then [c] else []
+  | _ => []
+
+/-- the deadline `now + ttl` this operation, executed at `now`, contributes to the waiters of `i`, if any -/
+def Op.deadline (i : Id) (now : Nat) : Op → List Nat
+  | .frame _ a => if a.length = 36 ∧ hdrId a = some i then [now + hdrTtl a] else []
+  | _ => []
+
+/-- connections of the asks for `i` in a history, in order -/
+def askers (i : Id) (ops : List Op) : List Nat := ops.flatMap (Op.asker i)
+
+/-- deadlines `t_k + d_k` of the asks for `i` in a history started at time `now`, in order -/
+def askDeadlines (i : Id) (now : Nat) : List Op → List Nat
+  | [] => []
+  | op :: ops => op.deadline i now ++ askDeadlines i (now + op.secs) ops
+
+theorem foldl_max_ge (l : List Nat) (a : Nat) : a ≤ l.foldl max a := by
+  induction l generalizing a with
+  | nil => simp
+  | cons x l ih => exact Nat.le_trans (Nat.le_max_left a x) (ih _)
+
+theorem foldl_max_mem_le (l : List Nat) (a : Nat) {x : Nat} (hx : x ∈ l) : x ≤ l.foldl max a := by
+  induction l generalizing a with
+  | nil => simp at hx
+  | cons z l ih =>
+    rcases List.mem_cons.1 hx with rfl | hx
+    · exact Nat.le_trans (Nat.le_max_right a x) (foldl_max_ge l _)
+    · exact ih _ hx
+
+theorem foldl_max_eq (l : List Nat) (a : Nat) : l.foldl max a = a ∨ l.foldl max a ∈ l := by
+  induction l generalizing a with
+  | nil => simp
+  | cons z l ih =>
+    rcases ih (max a z) with h | h
+    · rw [List.foldl_cons, h]
+      rcases Nat.le_total a z with hz | hz
+      · right; rw [Nat.max_eq_right hz]; simp
+      · left; exact Nat.max_eq_left hz
+    · right; exact List.mem_cons_of_mem _ h
+
+theorem foldl_max_mono (l : List Nat) {a b : Nat} (h : a ≤ b) : l.foldl max a ≤ l.foldl max b := by
+  induction l generalizing a b with
+  | nil => exact h
+  | cons z l ih => exact ih (by omega)
+
+theorem not_relay_asker {op : Op} (h : op.isRelay = false) (i : Id) (now : Nat) :
+    op.asker i = [] ∧ op.deadline i now = [] := by
+  cases op with
+  | tick k => exact ⟨rfl, rfl⟩
+  | service b => exact ⟨rfl, rfl⟩
+  | frame c b =>
+    simp [Op.isRelay] at h
+    have : ¬ b.length = 36 := by omega
+    simp [Op.asker, Op.deadline, this]
+
+theorem waiters_step {y : Sys} (hwf : WF y.st) {i : Id} {exp : Nat} {conns : List Nat}
+    (hl : lookup i y.st.msgs = some (.waiters exp conns)) (op : Op) (hnp : op.publishes i = false)
+    (hlt : op.isRelay = true → y.now < exp) :
+    lookup i (step y op).1.st.msgs =
+      some (.waiters ((op.deadline i y.now).foldl max exp) (conns ++ op.asker i)) := by
+  rcases step_cases y op with ⟨c, a, h, rfl, ha, hd, hs, _⟩ | ⟨f, h, hop, hf, hd, hs, _⟩ | ⟨hs, _, hnr⟩
+  · have hc : lookup i (cleanup y.now y.st).msgs = some (.waiters exp conns) :=
+      (lookup_cleanup_waiters hwf _ _ _ _).2 ⟨hl, hlt (by simp [Op.isRelay, ha])⟩
+    rw [hs]; simp only [lookup_recv]
+    by_cases hid : h.id = i
+    · subst hid
+      simp [hc, Op.asker, Op.deadline, ha, hdrId_of_decode hd, hdrTtl_of_decode hd, Nat.max_comm]
+    · have : ¬ hdrId a = some i := by rw [hdrId_of_decode hd]; simpa using hid
+      simp [hid, hc, Op.asker, Op.deadline, this]
+  · have hc : lookup i (cleanup y.now y.st).msgs = some (.waiters exp conns) :=
+      (lookup_cleanup_waiters hwf _ _ _ _).2 ⟨hl, hlt (by
+        rcases hop with rfl | ⟨c', rfl⟩ <;> simp [Op.isRelay] <;> omega)⟩
+    have hid : h.id ≠ i := by
+      rintro rfl
+      rcases hop with rfl | ⟨c', rfl⟩ <;> simp [Op.publishes, hf, hdrId_of_decode hd] at hnp
+    have h36 : ¬ f.length = 36 := by omega
+    rw [hs]; simp only [lookup_send, hid, if_false, hc]
+    rcases hop with rfl | ⟨c', rfl⟩ <;> simp [Op.asker, Op.deadline, h36]
+  · rw [hs, (not_relay_asker hnr i y.now).1, (not_relay_asker hnr i y.now).2]; simpa using hl
+
+/-- **waiters**: as long as every relay operation happens before the *current* deadline of the entry (the maximum
+    of the deadlines of the asks that joined so far) and nobody publishes `i`, the entry stays; its connection list
+    is the old one extended by every asker, in order, and its stored deadline is the maximum. -/
+theorem waiters_run {y : Sys} (hwf : WF y.st) {i : Id} {exp : Nat} {conns : List Nat}
+    (hl : lookup i y.st.msgs = some (.waiters exp conns)) (cont : List Op)
+    (hnp : ∀ op ∈ cont, op.publishes i = false)
+    (halive : ∀ j op, cont[j]? = some op → op.isRelay = true →
+        (run y (cont.take j)).1.now < (askDeadlines i y.now (cont.take j)).foldl max exp) :
+    lookup i (run y cont).1.st.msgs =
+      some (.waiters ((askDeadlines i y.now cont).foldl max exp) (conns ++ askers i cont)) := by
+  induction cont generalizing y exp conns with
+  | nil => simpa [run, askDeadlines, askers] using hl
+  | cons op l ih =>
+    have h0 : op.isRelay = true → y.now < exp := fun hr => by simpa [run, askDeadlines] using halive 0 op rfl hr
+    have hstep := waiters_step hwf hl op (hnp op (by simp)) h0
+    have := ih (WF_step hwf op) hstep (fun o ho => hnp o (by simp [ho])) (fun j o hj hr => by
+      have := halive (j + 1) o (by simpa using hj) hr
+      simpa [run_cons, askDeadlines, step_now, List.foldl_append] using this)
+    rw [run_cons]; simp only
+    rw [this]
+    simp [askDeadlines, askers, step_now, List.foldl_append, List.append_assoc]
+
+/-- the simple sufficient condition: the whole continuation ends before the deadline stored at its start -/
+theorem alive_of_final_lt {y : Sys} {i : Id} {exp : Nat} (cont : List Op) (h : (run y cont).1.now < exp) :
+    ∀ j op, cont[j]? = some op → op.isRelay = true →
+        (run y (cont.take j)).1.now < (askDeadlines i y.now (cont.take j)).foldl max exp := by
+  intro j op _ _
+  have h1 := run_take_now_le y cont j
+  have h2 := foldl_max_ge (askDeadlines i y.now (cont.take j)) exp
+  omega
+
+/-! ### memory: map entries are covered by heap entries, heap entries by live pushes of the history -/
+
+theorem length_le_of_nodup_subset {α : Type} [DecidableEq α] {l l' : List α} (hnd : l.Nodup) (hs : ∀ x ∈ l, x ∈ l') :
+    l.length ≤ l'.length := by
+  induction l generalizing l' with
+  | nil => simp
+  | cons a l ih =>
+    have ha : a ∈ l' := hs a (by simp)
+    have hnd' := List.nodup_cons.1 hnd
+    have := ih (l' := l'.erase a) hnd'.2 (fun x hx => by
+      have hne : x ≠ a := by rintro rfl; exact hnd'.1 hx
+      exact (List.mem_erase_of_ne hne).2 (hs x (by simp [hx])))
+    rw [List.length_erase_of_mem ha] at this
+    have : 0 < l'.length := List.length_pos_of_mem ha
+    simp; omega
+
+/-- the heap entry that accounts for a map entry -/
+def guard (heap : List Expire) (p : Id × Entry) : Expire :=
+  match p.2 with
+  | .ready _ => ⟨pubExp p.1 heap, p.1, .pub⟩
+  | .waiters exp _ => ⟨exp, p.1, .ask⟩
+
+theorem WF.msgs_length_le {s : State} (h : WF s) : s.msgs.length ≤ s.heap.length := by
+  have hinj : (s.msgs.map (guard s.heap)).Nodup := by
+    have : (s.msgs.map (guard s.heap)).map Expire.id = s.msgs.map Prod.fst := by
+      rw [List.map_map]; apply List.map_congr_left; intro p _
+      obtain ⟨i, v⟩ := p; cases v <;> rfl
+    have hnd := h.nodup; rw [← this] at hnd
+    exact List.Pairwise.of_map Expire.id (fun a b hab heq => hab (congrArg Expire.id heq)) hnd
+  have := length_le_of_nodup_subset hinj (l' := s.heap) (by
+    intro x hx
+    obtain ⟨⟨i, v⟩, hp, rfl⟩ := List.mem_map.1 hx
+    have hl := lookup_of_mem h.nodup hp
+    cases v with
+    | ready m => exact h.pubExp_mem hl
+    | waiters exp conns => exact (h.waiters_ask _ _ _ hl).2)
+  simpa using this
+
+/-- the heap entries pushed by a history started at time `now` (one per ask / publication, at most) -/
+def pushes (now : Nat) : List Op → List Expire
+  | [] => []
+  | op :: ops => (pushOf now op).toList ++ pushes (now + op.secs) ops
+
+theorem pushes_append (now : Nat) (l₁ l₂ : List Op) :
+    pushes now (l₁ ++ l₂) = pushes now l₁ ++ pushes (now + (l₁.map Op.secs).sum) l₂ := by
+  induction l₁ generalizing now with
+  | nil => simp [pushes]
+  | cons op l ih => simp [pushes, ih, Nat.add_assoc]
+
+/-- the heap after a step: the not-yet-due part of the old heap, plus at most the push of this operation -/
+theorem step_heap (y : Sys) (op : Op) :
+    (op.isRelay = false ∧ (step y op).1.st = y.st) ∨
+    (op.isRelay = true ∧ ((step y op).1.st.heap = (cleanup y.now y.st).heap ∨
+      ∃ e, pushOf y.now op = some e ∧ (step y op).1.st.heap = (cleanup y.now y.st).heap ++ [e])) := by
+  rcases step_cases y op with ⟨c, a, h, rfl, ha, hd, hs, _⟩ | ⟨f, h, hop, hf, hd, hs, _⟩ | ⟨hs, _, hnr⟩
+  · right; refine ⟨by simp [Op.isRelay, ha], ?_⟩
+    rw [hs]
+    rcases recv_heap y.st c h.id h.ttl y.now with hh | hh
+    · exact Or.inl hh
+    · exact Or.inr ⟨_, by simp [pushOf, hd, ha], hh⟩
+  · right
+    have h36 : ¬ f.length = 36 := by omega
+    have h36' : ¬ f.length ≤ 36 := by omega
+    refine ⟨by rcases hop with rfl | ⟨c', rfl⟩ <;> simp [Op.isRelay] <;> omega, ?_⟩
+    rw [hs]
+    rcases send_heap y.st h.id h.ttl f y.now with hh | hh
+    · exact Or.inl hh
+    · exact Or.inr ⟨_, by rcases hop with rfl | ⟨c', rfl⟩ <;> simp [pushOf, hd, h36, h36'], hh⟩
+  · exact Or.inl ⟨hnr, hs⟩
+
+theorem heap_sublist_pushes (ops : List Op) : ((run {} ops).1.st.heap).Sublist (pushes 0 ops) := by
+  have := run_induction (P := fun H y => y.now = (H.map Op.secs).sum ∧ (y.st.heap).Sublist (pushes 0 H))
+    (H := []) (y := {}) ⟨rfl, by simp [pushes]⟩ WF_init (fun H y op ⟨hn, hs⟩ _ => by
+      refine ⟨by simp [step_now, hn], ?_⟩
+      rw [pushes_append]; simp only [pushes, Nat.zero_add, List.append_nil, ← hn]
+      rcases step_heap y op with ⟨_, h⟩ | ⟨_, h | ⟨e, he, h⟩⟩
+      · rw [h]; exact List.Sublist.trans hs (List.sublist_append_left _ _)
+      · rw [h]
+        exact List.Sublist.trans (List.Sublist.trans List.filter_sublist hs) (List.sublist_append_left _ _)
+      · rw [h, he]
+        exact List.Sublist.append (List.Sublist.trans List.filter_sublist hs) (List.Sublist.refl _)) ops
+  simpa using this.2
+
+
+theorem pushOf_isRelay {t : Nat} {op : Op} {e : Expire} (h : pushOf t op = some e) : op.isRelay = true := by
+  cases op with
+  | tick k => simp [pushOf] at h
+  | frame c b =>
+    cases hd : decodeHdr? b with
+    | none => simp [pushOf, hd] at h
+    | some hh => simpa [Op.isRelay] using decodeHdr?_length hd
+  | service b =>
+    cases hd : decodeHdr? b with
+    | none => simp [pushOf, hd] at h
+    | some hh =>
+      by_cases h36 : b.length ≤ 36
+      · simp [pushOf, hd, h36] at h
+      · simp [Op.isRelay]; omega
+
+/-- each operation pushes at most one heap entry, and only asks / publications push -/
+theorem pushes_length_le (now : Nat) (ops : List Op) : (pushes now ops).length ≤ ops.countP Op.isRelay := by
+  induction ops generalizing now with
+  | nil => simp [pushes]
+  | cons op l ih =>
+    have := ih (now + op.secs)
+    simp only [pushes, List.length_append, List.countP_cons]
+    cases hp : pushOf now op with
+    | none => simp; omega
+    | some e => simp [pushOf_isRelay hp]; omega
+
+/-- if nothing is stored under `i` when an operation starts acting, a stored frame afterwards is the one it published -/
+theorem ready_after_none {y : Sys} {i : Id} (hn : lookup i (cleanup y.now y.st).msgs = none) {op : Op} {g : Bytes}
+    (hl : lookup i (step y op).1.st.msgs = some (.ready g)) (hr : op.isRelay = true) :
+    op.publishesFrame g = true ∧ hdrId g = some i := by
+  rcases step_cases y op with ⟨c, a, h, rfl, ha, hd, hs, _⟩ | ⟨f, h, hop, hf, hd, hs, _⟩ | ⟨_, _, hnr⟩
+  · rw [hs] at hl; simp only [lookup_recv] at hl
+    by_cases hid : h.id = i
+    · subst hid; simp [hn] at hl
+    · simp [hid, hn] at hl
+  · rw [hs] at hl; simp only [lookup_send] at hl
+    by_cases hid : h.id = i
+    · subst hid; simp [hn] at hl; subst hl
+      exact ⟨by rcases hop with rfl | ⟨c', rfl⟩ <;> simp [Op.publishesFrame, hf], hdrId_of_decode hd⟩
+    · simp [hid, hn] at hl
+  · rw [hnr] at hr; cases hr
+
+/-- a publication that finds no stored message under its id stores its frame with expiry `now + ttl` -/
+theorem send_stores {s : State} (hwf : WF s) {id : Id} {ttl : Nat} {frame : Bytes} {now : Nat}
+    (hnr : ∀ m, lookup id (cleanup now s).msgs ≠ some (.ready m)) :
+    lookup id (send s id ttl frame now).1.msgs = some (.ready frame) ∧
+      pubExp id (send s id ttl frame now).1.heap = now + ttl := by
+  have hc := WF_cleanup hwf now
+  have hp := hc.pubs_nil (i := id) hnr
+  rcases entry_cases (lookup id (cleanup now s).msgs) with ⟨m, hl⟩ | ⟨exp, conns, hl⟩ | hl
+  · exact absurd hl (hnr m)
+  · rw [send_waiters hl]; exact ⟨by simp [lookup_insert], pubExp_push_self _ hp⟩
+  · rw [send_none hl]; exact ⟨by simp [lookup_insert], pubExp_push_self _ hp⟩
 
 end SlVerif.Relay
